@@ -51,6 +51,7 @@ pub fn main(a: &[String]) {
         "c06" => c06::drive,
         "c07" => c07::drive,
         "c08" => c08::drive,
+        "c18r" => c08::drive_ym,
         "c09" => c09::drive,
         "c10" => c10::drive,
         "c11" => c11::drive,
